@@ -4,6 +4,9 @@ From Coq Require Import List Bool Arith NArith Lia.
 From MV Require Import Base.Bytes Model.DnsLayer Proofs.DnsLayerFrame.
 Import ListNotations.
 
+Lemma apply_act_req a f : f_req (apply_act a f) = f_req f.
+Proof. destruct a; try reflexivity. cbn [apply_act]. destruct (f_req f) eqn:E; [reflexivity | exact E]. Qed.
+
 (* ---------- the handlers never look at the TCP buffers ---------- *)
 
 Definition wb (fc : bool) (b : bytes) (p : st * list out) : st * list out :=
@@ -159,7 +162,7 @@ Proof.
   intros Hq. unfold handle_error. pose proof (pop_act_ctl s) as P. destruct (pop_act s) as [a s1].
   cbn [fst snd] in *.
   assert (E : f_req (apply_act a (mkFlow (f_ord f) (f_req f) (f_resp f) true (f_live f))) = Some q)
-    by (destruct a; cbn; exact Hq).
+    by (rewrite apply_act_req; exact Hq).
   rewrite E. cbn [fst snd]. split.
   - destruct P as (P1&P2&P3&P4). repeat split; cbn; assumption.
   - cbn. rewrite Hq. auto.
@@ -175,7 +178,7 @@ Proof.
   unfold handle_request. pose proof (pop_act_ctl s) as P. destruct (pop_act s) as [a s1].
   cbn [fst snd] in *.
   set (f2 := apply_act a _).
-  assert (E : f_req f2 = Some m) by (subst f2; destruct a; reflexivity).
+  assert (E : f_req f2 = Some m) by (subst f2; rewrite apply_act_req; reflexivity).
   assert (Herr : forall s0, same_ctl s s0 ->
      same_ctl s (fst (handle_error c s0 i f2)) /\ servfail_ok (ctcp c) (snd (handle_error c s0 i f2))).
   { intros s0 H0. destruct (handle_error_struct c s0 i f2 m E) as [H1 H2].
